@@ -55,17 +55,25 @@ TraceNewAppend ==
 TraceNoWriter == IsEvent("NoWriter") /\ UNCHANGED <<w, res>>
 TraceSetComment == IsEvent("SetComment") /\ SetComment([id |-> ev.c.id, len |-> ev.c.len]) /\ ResIs
 
+\* A method that cannot be written or a level outside its range must be REFUSED (C12); what the refusal leaves behind is the
+\* implementation's choice: ZipWriter.tla describes the pinned tree (the header is out already, the writer is poisoned -
+\* PoisonOnBadLevel), but refusing up front with nothing written and nothing changed is just as good.  TLC follows both
+\* explanations; the calls and the layout that follow decide.
+BadOpts(o) == ~(o.method \in Writable /\ LevelOk(o.method, o.level))
+CleanRefusal == ev.r = "err" /\ BadOpts(OptsOf(ev.o)) /\ ~w.dead /\ w' = w /\ res' = "err"
 TraceStartFile ==
    /\ IsEvent("StartFile")
-   /\ LET o == OptsOf(ev.o) cs == CsFrom(ev.pos - HdrLen(ev.name, o.large)) IN
-        CloseGuard(cs, ev.name.len) /\ StartFile(ev.name, o, cs)
-   /\ ResIs /\ PosOk
+   /\ \/ /\ LET o == OptsOf(ev.o) cs == CsFrom(ev.pos - HdrLen(ev.name, o.large)) IN
+               CloseGuard(cs, ev.name.len) /\ StartFile(ev.name, o, cs)
+         /\ ResIs /\ PosOk
+      \/ CleanRefusal
 TraceStartFileExtra ==
    /\ IsEvent("StartFileExtra")
-   /\ LET o == OptsOf(ev.o) cs == CsFrom(ev.pos - HdrLen(ev.name, o.large)) IN
-        CloseGuard(cs, ev.name.len) /\ StartFileExtra(ev.name, o, cs)
-   /\ ResIs /\ PosOk
-   /\ Check(ev.r = "ok" => ev.ret = Last(w').dstart)
+   /\ \/ /\ LET o == OptsOf(ev.o) cs == CsFrom(ev.pos - HdrLen(ev.name, o.large)) IN
+               CloseGuard(cs, ev.name.len) /\ StartFileExtra(ev.name, o, cs)
+         /\ ResIs /\ PosOk
+         /\ Check(ev.r = "ok" => ev.ret = Last(w').dstart)
+      \/ CleanRefusal
 \* the compressed size of the entry this call closes is inferred from where the sink stands afterwards.  When the
 \* call fails after the padding record went out (unsupported method / bad level found at the end of the extra
 \* phase) no padding is returned, so the candidates are all sizes c with  header(c) + padding(header(c)) = position
@@ -79,14 +87,15 @@ AlignedCs(o) ==
       ELSE CHOOSE c \in alt : \A d \in alt : c <= d
 TraceStartFileAligned ==
    /\ IsEvent("StartFileAligned")
-   /\ LET o == OptsOf(ev.o) cs == AlignedCs(o) IN
-        /\ CloseGuard(cs, ev.name.len) /\ ~w.dead
-        /\ LET r == AlignedF(w, ev.name, o, ev.align, cs, ev.padh) IN
-             /\ w' = [r.w EXCEPT !.al = IF r.ok THEN ev.align ELSE 0]
-             /\ res' = (IF r.ok THEN "ok" ELSE "err")
-             /\ Check(r.ok => r.ret = ev.ret)            \* returned padding = local extra added
-   /\ ResIs /\ PosOk
-   /\ Check(ev.r = "ok" /\ ev.align > 1 => ev.pos % ev.align = 0)
+   /\ \/ /\ LET o == OptsOf(ev.o) cs == AlignedCs(o) IN
+               /\ CloseGuard(cs, ev.name.len) /\ ~w.dead
+               /\ LET r == AlignedF(w, ev.name, o, ev.align, cs, ev.padh) IN
+                    /\ w' = [r.w EXCEPT !.al = IF r.ok THEN ev.align ELSE 0]
+                    /\ res' = (IF r.ok THEN "ok" ELSE "err")
+                    /\ Check(r.ok => r.ret = ev.ret)            \* returned padding = local extra added
+         /\ ResIs /\ PosOk
+         /\ Check(ev.r = "ok" /\ ev.align > 1 => ev.pos % ev.align = 0)
+      \/ CleanRefusal
 \* Write and WriteExtra differ only in what the harness put into the bytes
 TraceWrite ==
    /\ (IsEvent("Write") \/ IsEvent("WriteExtra"))
